@@ -366,6 +366,22 @@ static std::string case_P(const std::vector<std::string> &fld)
 
 static std::string case_S(const std::vector<std::string> &fld)
 {
+    if (g_forked) {
+        // does building the expression(s) alone already kill the process?  (not printer/parser business)
+        std::string b = verif::run_forked(
+            [&]() -> std::string {
+                try {
+                    verif::eval_recipe(fld[0].substr(2));
+                    if (fld.size() >= 2)
+                        verif::eval_recipe(fld[1]);
+                } catch (...) {
+                }
+                return "BUILT";
+            },
+            10);
+        if (b != "BUILT")
+            return "SKIP:constructor-" + b;
+    }
     return guard(
         [&]() -> std::string {
             std::string r1 = fld[0].substr(2);
@@ -385,8 +401,10 @@ static std::string case_S(const std::vector<std::string> &fld)
             });
             out += "\tRT=" + rt;
             bool same = !back.is_null() && eq(*back, *e);
-            out += std::string("\tEQ=") + (same ? "1" : "0");
-            if (!same)
+            // EQ=2: not eq, but it prints the same 15 significant digits (doubles)
+            bool same_printed = !same && !back.is_null() && str(*back) == s;
+            out += std::string("\tEQ=") + (same ? "1" : (same_printed ? "2" : "0"));
+            if (!same && !same_printed)
                 oracle += " parse(str(e)) is not eq to e;";
             if (fld.size() >= 2) {
                 RCP<const Basic> e2;
